@@ -108,7 +108,8 @@ class C10(Prop):
         spots = [p for p in CC.positions(a) if isinstance(CC.resolve(a, p), dict) and isinstance(CC.resolve(b, p), dict)]
         p = rng.choice(spots)
         da, db = CC.resolve(a, p), CC.resolve(b, p)
-        pairs = [("Ab", "aB"), ("Ab", "cD"), ("Ab", "Ab"), (1.5, 2.0), (0.5, 1.5), (2.5, 2), (3, 3.5), ("X", 1), (None, "x")]
+        pairs = [("Ab", "aB"), ("Ab", "cD"), ("Ab", "Ab"), (1.5, 2.0), (0.5, 1.5), (2.5, 2), (3, 3.5), ("X", 1), (None, "x"),
+                 (2, 2.0), (10.0, 10), (1, True), (0, False)]     # the last four: equal under ==, of different types
         va, vb = rng.choice(pairs)
         da["T"], db["T"] = va, vb
         if rng.random() < 0.5:
@@ -217,6 +218,20 @@ class C10(Prop):
                 i = {"a": a, "b": b, "walk": walk, "setters": []}
                 i.update(copy.deepcopy(opt))
                 out.append({"stream": "cmp", "tag": "sys:one-sided:" + walk, "input": i})
+        for _ in range(40 if quick else 1500):
+            # a list-valued entry below an element of another list, differences inside it, and an exclusion pattern that spells
+            # the outer list step without its index: it matches no dictionary entry path ('/rows[0]/tags'), so nothing is hidden
+            rows = [{"name": rng.choice(["x", "y"]), "tags": [CC.gen_leaf(rng) for _ in range(rng.randint(1, 3))]} for _ in range(rng.randint(1, 3))]
+            rows2 = copy.deepcopy(rows)
+            r = rng.choice(rows2)
+            r["tags"][rng.randrange(len(r["tags"]))] = rng.choice(["changed", 99])
+            if rng.random() < 0.5:
+                r["name"] = "changed"
+            opt = {"excl": [rng.choice(["/rows/tags", "//rows/tags", "/Rows/TAGS", "/rows/*", "/rows[0]/tags", "//tags"])]}
+            for walk in ("compare", "direct"):
+                i = {"a": {"rows": rows, "z": 1}, "b": {"rows": rows2, "z": 1}, "walk": walk, "setters": []}
+                i.update(copy.deepcopy(opt))
+                out.append({"stream": "cmp", "tag": "sys:list-below-list:" + walk, "input": i})
         return out
 
     def valid(self, case):
